@@ -16,6 +16,8 @@ C16-a error discipline: in CopyFileSystem, copyDir, copyOneFile and handleSymlin
 C16-b every difference kind yields an error: in CompareFS the Stat error of the target, an IsDir mismatch, a Size mismatch, the result of the content comparison and a path missing from the seen set each control an error return; in compareFileContents a count mismatch and !bytes.Equal do.
 C16-c copyDir and both walks of CompareFS consult the same exclusion table (directly or through an in-package helper), index it by the entry's own name (Name() / path.Base) and nothing else, and the table is never used other than by exact lookup.
 C16-d copyDir recurses into directories (after Mkdir) and copies regular files; copyOneFile writes the bytes it read (same SSA value) and treats a short write as an error; from each Read of the chunk loop no success exit is reachable without writing the bytes it returned, except on an edge where the count is <= 0 (data delivered together with io.EOF is not dropped).
+C16-e in compareFileContents every nil return that a Read of the comparison loop can reach lies behind the comparison of the bytes that Read delivered: the bytes.Equal call dominates it (data delivered together with io.EOF is compared before the function says "equal").
+C16-f a WalkDir callback in package sync returns fs.SkipDir only for a directory (on the true edge of d.IsDir()): returned for a file it makes WalkDir skip the rest of the containing directory, so later entries are neither copied nor compared.
 Decides these clauses, not equality of trees at run time. Observation recorded: compareFileContents compares raw Read counts.`)
 }
 
@@ -25,6 +27,10 @@ func runC16(w *World, r *Report) {
 	c16Exclusions(w, r)
 	c16CopyShape(w, r)
 	c16ReadLoop(w, r)
+	c16CompareBeforeEqual(w, r)
+	c16SkipDir(w, r)
+	r.Floor("C16-e", r.countRule("C16-e"), 1)
+	r.Floor("C16-f", r.countRule("C16-f"), 2)
 	r.Floor("C16-a", r.countRule("C16-a"), 12)
 	r.Floor("C16-b", r.countRule("C16-b"), 7)
 	r.Floor("C16-c", r.countRule("C16-c"), 3)
@@ -646,4 +652,94 @@ func freeVarBinding(fv *ssa.FreeVar) ssa.Value {
 		return nil
 	}
 	return out
+}
+
+// c16CompareBeforeEqual (C16-e): in compareFileContents, a success return reachable from the Read calls must be
+// dominated by the block that compares the bytes those Reads delivered.
+func c16CompareBeforeEqual(w *World, r *Report) {
+	cfc := w.FuncOpt("sync", "compareFileContents")
+	if cfc == nil {
+		fatalf("C16-e: sync.compareFileContents not found")
+	}
+	eqs := calls(cfc, false, func(c ssa.CallInstruction) bool { return isStdCall(c, "bytes.Equal") })
+	reads := calls(cfc, false, func(c ssa.CallInstruction) bool { return methodCallSig(c, "Read", 1, 2) })
+	if len(eqs) == 0 || len(reads) == 0 {
+		r.Fail("C16-e", fnName(cfc), "comparison precedes the verdict", w.relFile(cfc.Pos()), "no Read / bytes.Equal pair found in the comparison loop")
+		return
+	}
+	// blocks reachable from a Read
+	reach := map[*ssa.BasicBlock]bool{}
+	var st []*ssa.BasicBlock
+	for _, rd := range reads {
+		st = append(st, rd.Block())
+	}
+	for len(st) > 0 {
+		b := st[len(st)-1]
+		st = st[:len(st)-1]
+		if reach[b] {
+			continue
+		}
+		reach[b] = true
+		st = append(st, b.Succs...)
+	}
+	n := 0
+	for _, ret := range returnsOf(cfc) {
+		if classifyReturn(ret) == RetError || !reach[ret.Block()] {
+			continue
+		}
+		n++
+		dom := false
+		for _, e := range eqs {
+			if e.Block() == ret.Block() || e.Block().Dominates(ret.Block()) {
+				dom = true
+			}
+		}
+		r.Check(dom, "C16-e", fnName(cfc), "comparison precedes the verdict #"+itoa(n), w.relFile(instrPos(ret)), "bytes.Equal dominates this nil return",
+			"a nil return can be reached from the Read calls without comparing the bytes they delivered: the library's own files return their last data together with io.EOF, so a difference in the final chunk is reported as equal")
+	}
+	if n == 0 {
+		r.Fail("C16-e", fnName(cfc), "comparison precedes the verdict", w.relFile(cfc.Pos()), "no success return is reachable from the Read calls")
+	}
+}
+
+// c16SkipDir (C16-f): every return of fs.SkipDir in package sync is dominated by the true edge of an IsDir() test.
+func c16SkipDir(w *World, r *Report) {
+	n := 0
+	for _, fn := range w.ModFns {
+		if w.pkgOf(fn) != "sync" {
+			continue
+		}
+		for _, ret := range returnsOf(fn) {
+			ei := errResultIndex(fn.Signature)
+			if ei < 0 || ei >= len(ret.Results) {
+				continue
+			}
+			isSkip := false
+			for _, rt := range w.prov(ret.Results[ei], provOpts{}).Roots {
+				if g, isG := rt.Val.(*ssa.Global); rt.Kind == RGlobal && isG && g.Pkg != nil && g.Pkg.Pkg.Path() == "io/fs" && g.Name() == "SkipDir" {
+					isSkip = true
+				}
+			}
+			if !isSkip {
+				continue
+			}
+			n++
+			ok := false
+			for _, b := range fn.Blocks {
+				iff, isIf := lastInstr(b).(*ssa.If)
+				if !isIf {
+					continue
+				}
+				c, isCall := iff.Cond.(*ssa.Call)
+				if isCall && callMethodName(c) == "IsDir" && edgeDominates(b, 0, ret.Block()) {
+					ok = true
+				}
+			}
+			r.Check(ok, "C16-f", fnName(fn), "fs.SkipDir returned for directories only #"+itoa(n), w.relFile(instrPos(ret)), "",
+				"fs.SkipDir is returned on a path where the entry is not known to be a directory: for a file, WalkDir then skips the remaining entries of the containing directory, which are neither copied nor compared")
+		}
+	}
+	if n == 0 {
+		r.Ok("C16-f", "sync", "no fs.SkipDir return in package sync", "sync", "")
+	}
 }
